@@ -565,3 +565,57 @@ twin('C04', 'bs-begin-two-steps', BSPY, 'BaseStorage.tpc_begin',
                 self._tid = t.raw()''')
 twin('C04', 'loadbefore-swapped-operands', FSPY, 'FileStorage.loadBefore',
      'if h.tid < tid:', 'if tid > h.tid:')
+
+# ---------------------------------------------------------------- C17
+RECPY = 'ZODB/fsrecover.py'
+breaker('C17', 'copy-restore-txn-tid', 'C17.R1', BSPY, 'copy',
+        '''dest.restore(oid, r.tid, r.data, r.version,
+                             r.data_txn, transaction)''',
+        '''dest.restore(oid, transaction.tid, r.data, r.version,
+                             r.data_txn, transaction)''')
+breaker('C17', 'blobcopy-restore-no-hint', 'C17.R1', BLOBPY,
+        'copyTransactionsFromTo',
+        '''                destination.restore(record.oid, record.tid, record.data,
+                                    '', record.data_txn, trans)''',
+        '''                destination.restore(record.oid, record.tid, record.data,
+                                    '', None, trans)''')
+breaker('C17', 'copy-begin-no-status', 'C17.R2', BSPY, 'copy',
+        'dest.tpc_begin(transaction, tid, transaction.status)',
+        'dest.tpc_begin(transaction, tid)')
+breaker('C17', 'recover-begin-new-tid', 'C17.R2', RECPY, 'recover',
+        'ofs.tpc_begin(txn, tid, txn.status)',
+        'ofs.tpc_begin(txn, None, txn.status)')
+breaker('C17', 'scan-zero-progress', 'C17.R3', RECPY, 'scan',
+        '''                if l_ == 0:
+                    # Fewer than 8 bytes follow a period at the very
+                    # start of the buffer: we are at the end of the file.
+                    return 0
+''', '')
+breaker('C17', 'scan-no-progress-on-no-period', 'C17.R3', RECPY, 'scan',
+        '''            if l_ < 0:
+                pos += len(data)
+                break''', '''            if l_ < 0:
+                break''')
+breaker('C17', 'copy-no-eof-exit', 'C17.R3', RECPY, 'copy',
+        '''        if not buf:
+            break
+''', '')
+breaker('C17', 'restore-hint-mandatory', 'C17.R4', FSPY, 'FileStorage.restore',
+        '''                try:
+                    prev_txn_pos = self._txn_find(prev_txn, 0)
+                except UndoError:
+                    # prev_txn is only a hint: it need not exist here.
+                    prev_txn_pos = 0''',
+        '''                prev_txn_pos = self._txn_find(prev_txn, 0)''')
+breaker('C17', 'recover-abort-skipped', 'C17.R5', RECPY, 'recover',
+        '''            else:
+                ofs.tpc_abort(txn)
+            print("error copying transaction:", err)''',
+        '''            print("error copying transaction:", err)''')
+twin('C17', 'copy-restore-inline-oid', BSPY, 'copy',
+     '''dest.restore(oid, r.tid, r.data, r.version,
+                             r.data_txn, transaction)''',
+     '''dest.restore(r.oid, r.tid, r.data, r.version,
+                             r.data_txn, transaction)''')
+twin('C17', 'scan-guard-spelling', RECPY, 'scan',
+     '''                if l_ == 0:''', '''                if not l_ > 0:''')
